@@ -602,6 +602,54 @@ def rule_sum_and_propagate(ctx):
             ctx.violation("pattern::MultiPattern::score|zip|0", site(mp, 0), "MultiPattern::score does not zip column patterns with column haystacks")
 
 
+def rule_match_list_filter(ctx):
+    """match_list keeps exactly the items the pattern matches: an item leaves the list only because `score` said None
+    for it.  Every None of the filtering closure is control dependent on the score call's result (or is the score's
+    own None passed through Option::map); a pre-filter on lengths / bytes / a cache is a second, different matcher."""
+    from cfg import decision_paths
+    facts = ctx.facts
+    n = 0
+    for name, inner in (("pattern::Atom::match_list", "pattern::Atom::score"), ("pattern::Pattern::match_list", "pattern::Pattern::score")):
+        fn = get_fn(facts, M, name)
+        subs = []
+        for bi, t in fn.calls(lambda t: str(t.get("fn")).endswith("Iterator::collect") or callee(t).endswith("::extend")):
+            for st in iter_pipeline(fn, t, 0 if str(t.get("fn")).endswith("Iterator::collect") else 1):
+                if st[0].startswith(("subset:", "truncating:")):
+                    subs.append((fn, bi, st[0].split(":", 1)[1], st[1]))
+        # explicit loops that push are handled as one more "closure": the function body itself
+        if not subs:
+            subs = [(fn, 0, "loop", None)]
+        for f_, bi, kind, cpath in subs:
+            n += 1
+            key = "%s|filter|%d" % (name, n)
+            if kind not in ("filter_map", "loop") or cpath is None:
+                ctx.violation(key, site(f_, bi), "%s selects items with `%s` instead of the score: items are dropped for another reason than `no match`" % (name, kind))
+                continue
+            cf = get_fn(facts, M, cpath)
+            bad = None
+            for conds, res in decision_paths(cf):
+                if res is None:
+                    continue
+                r = strip_casts(res)
+                if r[0] == "call" and str(r[1]).endswith("Option::<T>::map") and _inner_call(r[2][0], inner) and strip_casts(r[2][0])[0] == "call" and str(strip_casts(r[2][0])[1]) == inner:
+                    continue            # score(..).map(|s| (item, s)): None iff score is None
+                if r[0] == "agg" and str(r[1]).endswith("Option::Some"):
+                    continue
+                is_none = (r[0] == "agg" and str(r[1]).endswith("Option::None")) or (r[0] == "call" and str(r[1]).endswith("from_residual"))
+                if is_none:
+                    dep = any(d[0] == "discr" and _inner_call(d, inner) and (chosen in (0, 1)) for d, chosen, allv in conds)
+                    if not dep:
+                        bad = "; ".join("%s = %s" % (show(d)[:60], chosen) for d, chosen, allv in conds) or "unconditionally"
+                        break
+                    continue
+                raise Inconclusive("%s: filter closure result %s" % (name, show(r)[:100]))
+            if bad:
+                ctx.violation(key, site(cf, 0), "%s drops an item without asking %s (when %s): items that the pattern matches can be missing from the list" % (name, inner.rsplit("::", 2)[-2] + "::score", bad))
+            else:
+                ctx.ok(site(cf, 0), "%s: an item is dropped only when %s returns None" % (name.rsplit("::", 2)[-2] + "::match_list", inner.rsplit("::", 2)[-2] + "::score"))
+    ctx.floor("item filters of the match_list functions", n, 2)
+
+
 def rule_stable_sort(ctx):
     facts = ctx.facts
     for name in ("pattern::Atom::match_list", "pattern::Pattern::match_list"):
@@ -699,4 +747,5 @@ def rules(ctx):
     ctx.run_rule("C15.negation", rule_negation)
     ctx.run_rule("C15.sum-and-propagate", rule_sum_and_propagate)
     ctx.run_rule("C15.stable-sort", rule_stable_sort)
+    ctx.run_rule("C15.match-list-filter", rule_match_list_filter)
     ctx.run_rule("C15.columns", rule_columns)
